@@ -66,6 +66,19 @@ func (v *vgen) scalar(t *T, maxStr int) *W {
 			w.I = int64(math.Float64bits(float64(int64(r.Next()%2000)-1000) / 8))
 		}
 	case String, Binary:
+		if maxStr >= 8 && v.rem >= 16 && r.Chance(1, 7) {
+			// a family of near-identical short strings (the same in all but one bit or byte, of word-sized lengths):
+			// the same few strings turn up in many messages of a process, and anything that identifies a string by
+			// a digest, a prefix or a packed word confuses its members
+			n := []int{8, 8, 8, 4, 7, 9, 16}[r.Intn(7)]
+			w.B = []byte("tenant-0tenant-0"[:n])
+			w.B[n-1] = "0819aiAI@H"[r.Intn(10)]
+			if r.Chance(1, 4) {
+				w.B[0] = "tu"[r.Intn(2)]
+			}
+			v.rem -= n
+			return w
+		}
 		n := strLens[r.Intn(len(strLens))]
 		if r.Chance(2, 3) {
 			n = r.Intn(24)
